@@ -75,9 +75,10 @@ def main():
             obligations += nob
             discharged += nob - len(r.failed)
             fails = []
-            for f in r.failed:
+            for f in r.failed[:2]:              # the first two failing properties of a query are re-executed natively; the others share the query's inputs
                 c = mod.confirm(ctx, j, f)      # -> {'confirmed':bool,'key':str,'detail':str,'replay':path}
                 fails.append(c)
+            q['failed_properties'] = [f['description'][:120] for f in r.failed][:20]
         for c in fails:
             if not c.get('confirmed'):
                 broken.append('%s: counterexample did not replay: %s' % (j.name, c.get('detail', '')[:300]))
